@@ -102,6 +102,38 @@ def extra_srcs():
              "regular_src": f"@guppy\ndef r_{i}(a: {t}) -> None:\n    r = {e}\n"} for i, e, t in EXTRA]
 
 
+# ---- bodies with several constants in one function (per-trace state must not leak between them):
+# pairs that are ==-equal but distinct (0.0/-0.0, 1/1.0/True, 0/0.0/False), repeated equal constants;
+# constants as right / left / both operands, call arguments, tuple elements, multi-statement bodies
+CONST_PAIRS = [("0.0", "-0.0"), ("-0.0", "0.0"), ("0.0", "0.0"), ("-0.0", "-0.0"), ("1", "1.0"), ("1.0", "1"), ("True", "1"),
+               ("1", "True"), ("1.0", "True"), ("0", "0.0"), ("0.0", "0"), ("-0.0", "0"), ("False", "0"), ("2.5", "2.5"), ("2", "2"),
+               ("1e308", "1e-308")]
+LIT_TY = lambda a: "bool" if a in ("True", "False") else ("float" if any(ch in a for ch in ".e") else "int")  # noqa: E731
+MC_BODIES = {
+    "right": (["r1 = x * {a}", "r2 = y * {b}"], "None"),
+    "left": (["r1 = {a} * x", "r2 = {b} + y"], "None"),
+    "nested": (["r = (x + {a}) / (y * {b})"], "None"),
+    "multi": (["r1 = x + {a}", "r2 = y * {b}", "r3 = 1.0 / r2", "r4 = r1 - {a}", "r5 = r3 * {b}"], "None"),
+    "callargs": (["r1 = gf({a}, x)", "r2 = gf(y, {b})"], "None"),
+    "callboth": (["r = gf({a}, {b})", "s = gf({b}, {a})"], "None"),
+    "tuple": (["return (x * {a}, y + {b}, {a})"], "tuple[float, float, {ta}]"),
+    "intctx": (["k1 = n + {a}", "k2 = n * {b}", "k3 = {a} - n"], "None"),
+}
+MC_PRELUDE = "@guppy\ndef gf(a: float, b: float) -> float:\n    return a - b\n"
+
+
+def multi_const_srcs():
+    out = []
+    for name, (lines, ret) in MC_BODIES.items():
+        for i, (a, b) in enumerate(CONST_PAIRS):
+            body = "".join("    " + l.format(a=a, b=b) + "\n" for l in lines)
+            sig = f"(x: float, y: float, n: int) -> {ret.format(ta=LIT_TY(a))}:\n"
+            cid_ = f"mc_{name}_{i}"
+            out.append({"id": cid_, "body": body, "constants": [a, b],
+                        "comptime_src": f"@guppy.comptime\ndef c_{cid_}{sig}{body}", "regular_src": f"@guppy\ndef r_{cid_}{sig}{body}"})
+    return out
+
+
 COQ_HEAD = """From Coq Require Import List Bool String.
 From V.C21 Require Import ModelBase GenTracing GenAccepts ModelDispatch.
 Import ListNotations. Open Scope string_scope.
@@ -187,8 +219,16 @@ def prefix_ok(pred, lookups):
 
 
 def run(ctx):
-    tinfo = generate(ctx)
-    info = ctx.coq_props()
+    translator_error = None
+    try:
+        tinfo = generate(ctx)
+        info = ctx.coq_props()
+    except vlib.TranslatorError as e:       # broken tie; the differential search below still runs
+        translator_error = str(e)
+        tinfo = {"translator_error": translator_error}
+        names = [f"{f.name}:{n}" for f in sorted(ctx.coqdir.glob("*.v")) for n in vlib.count_theorems(f)]
+        info = {"ok": False, "obligations": len(names), "discharged": 0, "axioms": [], "log": translator_error,
+                "failed": "translator: " + translator_error[:200], "theorems": names}
     if not info["ok"]:
         info["discharged"] = 0
     r = vlib.rng(ctx.seed, "C21")
@@ -206,7 +246,7 @@ def run(ctx):
         run_cases = corpus + [c for c in cases if c not in corpus]
     # ---- model side: predictions for every case of the domain (cheap)
     model = None
-    if (vlib.COQ / "C21" / "ModelDispatch.vo").exists() or info["ok"]:
+    if translator_error is None and ((vlib.COQ / "C21" / "ModelDispatch.vo").exists() or info["ok"]):
         try:
             out = ctx.coq_eval("rows", coq_rows(cases))
             vals = vlib.parse_coq_values(out)[0]
@@ -229,6 +269,9 @@ def run(ctx):
     for i in range(0, len(payload_cases), chunk):
         impl.update(json.loads(ctx.impl("impl_tracing.py", {"mode": "compare", "cases": payload_cases[i:i + chunk]})))
     extra = json.loads(ctx.impl("impl_tracing.py", {"mode": "compare", "cases": extra_srcs()}))
+    mc_cases = multi_const_srcs()
+    mc = json.loads(ctx.impl("impl_tracing.py", {"mode": "compare", "prelude": MC_PRELUDE,
+                                                  "cases": [{k: c[k] for k in ("id", "comptime_src", "regular_src")} for c in mc_cases]}))
     # ---- compare
     prop_fail, model_fail, both_ok, both_err = [], [], 0, 0
     for c in run_cases:
@@ -285,8 +328,25 @@ def run(ctx):
             extra_fail.append(i)
             ctx.report(f"differs:{i}", "counterexample", "unary operator / builtin differs between comptime and regular",
                        {"expression": e, "argument_type": t, "comptime": ct, "regular": rg})
+    mc_fail, mc_both_ok = [], 0
+    for c in mc_cases:
+        ct, rg = mc[c["id"]]["comptime"], mc[c["id"]]["regular"]
+        for side in (ct, rg):
+            if side["ok"]:
+                side["canonical"] = canon(side["terms"])
+        same = (ct["ok"] and rg["ok"] and ct["canonical"] == rg["canonical"]) or (not ct["ok"] and not rg["ok"])
+        mc_both_ok += bool(ct["ok"] and rg["ok"])
+        if not same:
+            mc_fail.append(c["id"])
+            if len(mc_fail) <= 6:
+                ctx.report(f"differs:{c['id']}", "counterexample",
+                           "a body with several constants compiles to different operations/constants as comptime and as regular function",
+                           {"body": c["body"], "constants": c["constants"], "signature": "(x: float, y: float, n: int)",
+                            "constant_encoding": "const(<hugr value class>:f64:0x<IEEE-754 bits> | w<log2 width>:<int> | <bool>)",
+                            "comptime": ct, "regular": rg, "programs": {k: c[k] for k in ("comptime_src", "regular_src")},
+                            "replay": "prepend `from guppylang import guppy` and gf from props/C21/check.py:MC_PRELUDE, compile both with compile_function() under repo_shim and compare the Const nodes"})
     if not info["ok"] and not ctx.violations:
-        ctx.report("proof-broken:" + str(info["failed"]), "proof-broken", str(info["failed"]),
+        ctx.report(("translator:" + translator_error) if translator_error else "proof-broken:" + str(info["failed"]), "proof-broken", str(info["failed"]),
                    {"coq_error": vlib.CoqResult(False, info["log"]).error_excerpt(), "model_flagged_cases": [cid(c) for c in model_disagree][:20],
                     "executed_cases": len(run_cases), "translator": {k: str(v) for k, v in tinfo.items()}}, found_input=False)
     elif info["ok"] and model_disagree:
@@ -303,11 +363,12 @@ def run(ctx):
          "ModelDispatch.v: Python's binary-operator dispatch (left method first unless the left operand is a Python constant, then the reflected method of the right operand) and py_ops, written from the language reference",
          "props/C21/hterm.py canonicalisation of HUGR functions into operation terms; tools/repo_shim.py",
          "not modelled (partial): tuple/array/struct unpacking and calls to Guppy functions from comptime code, results on the emulator (no emulator can run /repo HUGR) — agreement is established at the level of the compiled operations"],
-        evaluations=len(run_cases) * 2 + len(EXTRA) * 2 + len(cases), distinct_nontrivial=both_ok,
+        evaluations=len(run_cases) * 2 + len(EXTRA) * 2 + len(mc_cases) * 2 + len(cases), distinct_nontrivial=both_ok,
         rule="cases = operator(19) x operand kinds {traced/traced, traced/const, const/traced} x operand types over {int,nat,float,bool} / constants {2, 2.5, True}; quick = corpus + 2 per operator x kind pair, thorough = all 760; non-trivial = both versions compiled (the operator is defined for the operand types)",
-        exhaustive=not ctx.quick, programs=len(run_cases) * 2 + len(EXTRA) * 2,
+        exhaustive=not ctx.quick, programs=len(run_cases) * 2 + len(EXTRA) * 2 + len(mc_cases) * 2,
         traces_validated_against_impl=len(run_cases) if model else 0, model_impl_mismatches=len(model_fail),
         property_disagreements=len(prop_fail), both_compiled=both_ok, both_rejected=both_err, extra_cases=len(EXTRA), extra_disagreements=extra_fail,
+        multi_constant_bodies=len(mc_cases), multi_constant_both_compiled=mc_both_ok, multi_constant_disagreements=mc_fail,
         model_flagged=[cid(c) for c in model_disagree], kind_pairs=dist, translator={k: str(v) for k, v in tinfo.items()},
         samples=[{"expression": expr(c), "types": [c["a"], c["b"]], "comptime": impl[cid(c)]["comptime"], "regular": impl[cid(c)]["regular"],
                   "model": model[cid(c)] if model else None} for c in (run_cases[0], run_cases[len(run_cases) // 2], run_cases[-1])],
